@@ -152,14 +152,14 @@ func stressChild(args []string) {
 		return n
 	}
 	go func() { // watchdog: a hang is a failure of the property (Shutdown must return), reported with the state reached
-		time.Sleep(8 * time.Second)
+		time.Sleep(20 * time.Second)
 		returned := 0
 		for i := range retSeq {
 			if retSeq[i].Load() != 0 {
 				returned++
 			}
 		}
-		fmt.Printf("FAIL hang: after 8s %d/%d Submit calls returned, %d tasks started, %d finished, Shutdown called=%v and not returned\n",
+		fmt.Printf("FAIL hang: after 20s %d/%d Submit calls returned, %d tasks started, %d finished, Shutdown called=%v and not returned\n",
 			returned, tasks, sum(startCnt), sum(finCnt), shutCalled.Load() != 0)
 		os.Exit(0)
 	}()
